@@ -129,6 +129,7 @@ func drawCfg(t *core.Tape, opt core.Options) RunCfg {
 	c.Txs = t.Chance(1, 2)
 	c.TxPct = []int{3, 10, 30}[t.Draw(3)]
 	c.Director = opt.Int("faults", 1) > 0 && c.NVal >= 3 && t.Chance(1, 3)
+	c.IDTwins = t.Chance(1, 3)
 	emphDirector := t.Chance(2, 3)
 	emphStrat := t.Draw(3)
 	if opt.Mode == "crash" {
@@ -181,6 +182,7 @@ func drawCfg(t *core.Tape, opt core.Options) RunCfg {
 		}
 	case "C19":
 		c.EvForger = true
+		c.IDTwins = c.IDTwins || len(c.Stakes)%2 == 0
 		if c.NoisePct < 15 {
 			c.NoisePct = 15
 		}
@@ -195,6 +197,21 @@ func drawCfg(t *core.Tape, opt core.Options) RunCfg {
 			}
 			if emphDirector {
 				c.Director = true
+			}
+			if len(c.ByzIdx) == 0 && emphDirector && emphStrat > 0 && opt.Int("byz", 1) > 0 {
+				// the structured plans of the director need a helping Byzantine validator: the one with the
+				// smallest stake turns Byzantine (if that is less than a third)
+				var tot int64
+				mi := 0
+				for i, x := range c.Stakes {
+					tot += x
+					if x < c.Stakes[mi] {
+						mi = i
+					}
+				}
+				if c.Stakes[mi]*3 < tot {
+					c.ByzIdx, c.ByzStrat, c.NByz = []int{mi}, []string{"echo"}, 1
+				}
 			}
 			if len(c.ByzStrat) > 0 && emphStrat > 0 {
 				c.ByzStrat[0] = []string{"", "lock-bait", "late-proposer"}[emphStrat]
